@@ -99,6 +99,7 @@ def make_case(seed, i, tier):
         "trr_endian": rng.choice([">", "<"]),
         "trr_double": rng.random() < 0.4,
     }
+    scn["early_hint"] = scn["cross_after"] + 1
     if scn["retrace"]:
         scn.update(box_growth=0.0, fail=None, reverse=False)
     if engine != "lammps":
